@@ -249,32 +249,38 @@ def r4_filter(ctx):
                   fn=qn, undecided="conversion of the residuals cannot be classified")
         if r[0] == "comp" and Q.cast_of(r[2]) is not None:
             r = (r[0], r[1], Q.cast_of(r[2])[0]) + tuple(r[3:])
-        if r[0] == "comp" and r[2][0] == "binop":
-            op, a, b = r[2][1], r[2][2], r[2][3]
-
-            def is_pred(t):
-                t = Q.reshape_of(t)[0] if Q.reshape_of(t) is not None else t
-                return t[0] == "elem" and any(x[0] == "call" and x[1] == ("attr", Q.SELF, "predict") for x in walk(t[1]))
-
-            def is_data(t):
-                t = Q.reshape_of(t)[0] if Q.reshape_of(t) is not None else t
-                return t[0] == "elem" and Q.unwrap(t[1]) == ("param", "data")
-            if op == "-" and is_pred(a) and is_data(b):
-                ctx.check("R4", "%s|residual-form|%s" % (qn, tag), False, "", bad="residuals are prediction - data (sign flipped)", fn=qn)
-                continue
-            d_el = a[0] == "elem" and Q.unwrap(a[1]) == ("param", "data")
-            pinner = Q.reshape_of(b)[0] if Q.reshape_of(b) is not None else b
-            p_el = pinner[0] == "elem" and any(x[0] == "call" and x[1] == ("attr", Q.SELF, "predict") for x in walk(pinner[1]))
-            instep = d_el and p_el and a[2] == pinner[2]
-            shape_ok = Q.reshape_of(b) is not None and Q.reshape_of(b)[1] == ("attr", a, "shape")
-            if op == "-" and instep and shape_ok:
-                ok = True
-            elif op == "-" and p_el is False and a[0] == "elem" and any(x[0] == "call" and x[1] == ("attr", Q.SELF, "predict") for x in walk(a[1])):
-                ok, why = False, "residuals are prediction - data"
-            elif op != "-":
-                ok, why = False, "residuals combine data and prediction with '%s'" % op
-            elif instep and not shape_ok:
-                ok, why = None, "prediction is not reshaped to the data's shape"
+        if r[0] == "comp":
+            # algebra decides the form: with d = the data element and q = the prediction element of the same zip step (reshaped or not),
+            # the residual must be the polynomial d - q (written as d - q, d + -1*q, np.subtract(d, q), -(q - d), ...)
+            from ..nf import Builder, Space, Undecided as NfUndecided
+            sp = Space()
+            elt = r[2]
+            dsym, qsym = sp.sym("d"), sp.sym("q")
+            env, steps, shapes = {}, set(), []
+            for x in walk(elt):
+                if isinstance(x, tuple) and x and x[0] == "elem":
+                    if Q.unwrap(x[1]) == ("param", "data"):
+                        env[x] = dsym
+                        steps.add(("d", x[2]))
+                    elif any(y[0] == "call" and y[1] == ("attr", Q.SELF, "predict") for y in walk(x[1]) if isinstance(y, tuple) and y):
+                        env[x] = qsym
+                        steps.add(("q", x[2]))
+            for x in walk(elt):
+                if isinstance(x, tuple) and x and x[0] == "call" and Q.reshape_of(x) is not None and Q.reshape_of(x)[0] in env and env[Q.reshape_of(x)[0]] is qsym:
+                    shapes.append(Q.reshape_of(x)[1])
+            try:
+                got = Builder(sp).nf(elt, env)
+                if got == dsym - qsym:
+                    instep = len({i for _k, i in steps}) == 1
+                    data_el = [x for x, v_ in env.items() if v_ is dsym]
+                    shape_ok = bool(shapes) and all(sh[0] == "attr" and sh[2] == "shape" and sh[1] in data_el for sh in shapes)
+                    ok, why = (True, "") if instep and shape_ok else (None, "prediction is not reshaped to the data's shape" if instep else "data and prediction come from different zip steps")
+                elif got == qsym - dsym:
+                    ok, why = False, "residuals are prediction - data (sign flipped)"
+                elif got.atoms_used() <= (dsym.atoms_used() | qsym.atoms_used()):
+                    ok, why = False, "residuals are %r with d = data, q = prediction (documented d - q)" % got
+            except NfUndecided:
+                pass
         ctx.check("R4", "%s|residual-form|%s" % (qn, tag), ok, "residual_i = data_i - pred_i.reshape(data_i.shape), data and prediction zipped in step", bad=why, fn=qn, undecided=why or "residual form not recognised")
         pc = [e.data[0] for e in p.events if e.kind == "call" and e.data[0][1] == ("attr", Q.SELF, "predict")]
         ctx.check("R4", "%s|predict-at-data-coordinates|%s" % (qn, tag), True if pc and pc[0][2] == (("param", "coordinates"),) else None, "the prediction is evaluated at the data coordinates", fn=qn)
